@@ -1,4 +1,6 @@
 import StraxModel.Lemmas.OverlapPC
+import StraxModel.Lemmas.OverlapMulti
+import StraxModel.Lemmas.OverlapGroups
 /-
   Property C09 — overlap-window plugins give chunking-independent results at chunk boundaries.
 
@@ -42,24 +44,37 @@ def exampleRun : List Chunk :=
 /-- the hypothesis `Stream` is satisfiable by a non-trivial chunking -/
 example : Stream exampleRun := by decide
 
+/-- what the model yields on it (`[start, end)` and output ids of every chunk; window (2, 1), neighbour
+count): five chunks, the first and third empty, the last one the final flush — evaluated by the
+kernel, and identical to what the real plugin yields (corpus of checks/props/c09.py) -/
+def showRun (r : Except Err (List Chunk)) : Option (List (Int × Int × List Nat)) :=
+  match r with
+  | .ok outs => some (outs.map (fun c => (c.start, c.stop, ids c.rows)))
+  | .error _ => none
+
+example : (showRun (runOverlap (fCount 2 1) (2, 1) exampleRun) ==
+    some [(0, 0, []), (0, 3, [1]), (3, 3, []), (3, 17, [1003, 2002, 3002]), (17, 20, [4001])]) = true := by
+  decide +kernel
+
 /-! ## 1. chunking independence
 
-Full statement (DESIGN §6), for every window-local computation including group-forming ones
-(one output row per group of input rows):
+Full statement (DESIGN §6): for every computation that is local within the declared window,
 
-    theorem overlap_whole (f) (wl wr) (cs) : Stream cs → WindowLocalG f wl wr → 0 ≤ wl → 0 ≤ wr →
-        ∃ outs, runOverlap f (wl, wr) cs = .ok outs ∧ allRows outs = f (allRows cs)
+    Stream cs → LocalWithin f wl wr → 0 ≤ wl → 0 ≤ wr →
+      ∃ outs, runOverlap f (wl, wr) cs = .ok outs ∧ allRows outs = f (allRows cs)
 
-Proved below for per-row computations (`WindowLocal`), both halves: the plugin does not fail
-(`overlap_total_partial`) and what it yields is the whole-run result (`overlap_whole_partial`).
-Missing for the full statement: a definition of window-locality for group-forming computations
-(groups can be arbitrarily long, so "depends only on rows within the window" has to be phrased on
-group boundaries) and the corresponding induction; gap-grouping and id-parity pairing are covered
-by the correspondence and the oracle of checks/props/c09.py only.
+It is proved below as `overlap_whole` for both kinds of computations the property quantifies over:
+per-row ones (`WindowLocal`, theorems `overlap_*_partial` of this section — "partial" only in that
+each covers one kind) and group-forming ones (`GroupLocal`, §1b: one output row per group of input
+rows, e.g. gap grouping).  What is NOT covered: group-forming computations that are not `GroupLocal`
+(the id-parity pairing `fPair` of the harness has not been shown to be one — its cuts depend on
+the parity of ids, not only on the distance of neighbours), and multi-output plugins with
+group-forming outputs (§6: totality is false there).  These stay with the correspondence and the
+oracle of checks/props/c09.py.
 
 `Stream cs` (decidable): at least one chunk; every chunk an ordinary chunk of the same data type,
 kind and run with `0 ≤ start ≤ end` and every row of positive duration inside it; consecutive
-chunks adjacent; the rows of the whole run pairwise disjoint in order.  The proof uses the
+chunks adjacent; the rows of the whole run pairwise disjoint in order.  The proofs use the
 disjointness only through "sorted by time". -/
 
 /-- totality: on a law-abiding chunking of disjoint rows a window-local per-row plugin never raises -/
@@ -123,6 +138,48 @@ example : ∃ outs, runOverlap (fCount 2 1) (2, 1) exampleRun = .ok outs ∧
   obtain ⟨outs, h, hr⟩ := overlap_whole_total_partial (fCount 2 1) 2 1 exampleRun (by decide)
     (count_windowLocal 2 1) (by decide) (by decide)
   exact ⟨outs, h, by rw [hr]; decide⟩
+
+
+/-! ## 1b. group-forming computations
+
+`GroupLocal f w` (Lemmas/OverlapGroups.lean): there is a notion of *cut* between a list of rows and
+the rows after it, decided by the last row before and the first row after and granted whenever
+these are more than `w` apart, such that `f` treats the two sides of a cut independently, every
+place where `f`'s output can be cut comes from a cut of the input (no group straddles it), and the
+output rows stay inside the time bounds of the input rows.  For such an `f` with `w ≤ 2·wr` — in
+particular `w ≤` the look-ahead — and ANY look-back `wl ≥ 0` the plugin is total and chunking
+independent: `sent_until` is always a cut of the run, so nothing left of it can matter. -/
+
+theorem overlap_whole_groups (f : List Row → List Row) (w wl wr : Int) (GL : GroupLocal f w) (cs : List Chunk)
+    (hs : Stream cs) (hwl : 0 ≤ wl) (hwr : 0 ≤ wr) (hw : w ≤ 2 * wr) :
+    ∃ outs, runOverlap f (wl, wr) cs = .ok outs ∧ allRows outs = f (allRows cs) :=
+  runOverlap_group_whole GL hwl hwr hw hs
+
+/-- gap grouping — the group-forming computation of the harness — is local within its gap … -/
+def gap_groupLocal (g : Int) : GroupLocal (fGap g) g := fGap_groupLocal g
+
+/-- … hence chunking independent for every gap up to twice the look-ahead window -/
+theorem overlap_whole_gap (g wl wr : Int) (cs : List Chunk) (hs : Stream cs)
+    (hwl : 0 ≤ wl) (hwr : 0 ≤ wr) (hg : g ≤ 2 * wr) :
+    ∃ outs, runOverlap (fGap g) (wl, wr) cs = .ok outs ∧ allRows outs = fGap g (allRows cs) :=
+  runOverlap_gap_whole hwl hwr hg hs
+
+/-- on the example run: rows 0–3 (gaps 1, 0, 1) form one group, row 4 (gap 3) its own -/
+example : ∃ outs, runOverlap (fGap 1) (0, 1) exampleRun = .ok outs ∧ ids (allRows outs) = [4, 401] := by
+  obtain ⟨outs, h, hr⟩ := overlap_whole_gap 1 0 1 exampleRun (by decide) (by decide) (by decide) (by decide)
+  exact ⟨outs, h, by rw [hr]; decide⟩
+
+/-- local within the declared window, one way or the other -/
+def LocalWithin (f : List Row → List Row) (wl wr : Int) : Prop :=
+  WindowLocal f wl wr ∨ ∃ w, w ≤ 2 * wr ∧ Nonempty (GroupLocal f w)
+
+/-- **C09, the full statement for single-output plugins** -/
+theorem overlap_whole (f : List Row → List Row) (wl wr : Int) (cs : List Chunk)
+    (hs : Stream cs) (hf : LocalWithin f wl wr) (hwl : 0 ≤ wl) (hwr : 0 ≤ wr) :
+    ∃ outs, runOverlap f (wl, wr) cs = .ok outs ∧ allRows outs = f (allRows cs) := by
+  rcases hf with hf | ⟨w, hw, ⟨GL⟩⟩
+  · exact overlap_whole_total_partial f wl wr cs hs hf hwl hwr
+  · exact overlap_whole_groups f w wl wr GL cs hs hwl hwr hw
 
 /-! ## 2. the key invariant of one call
 
@@ -202,16 +259,84 @@ theorem multi_output_aligned (fs : List (String × String × (List Row → List 
 example : ((([("cnt", "k1", fCount 2 2), ("grp", "k2", fGap 2)] :
     List (String × String × (List Row → List Row))).map (·.1))).Nodup := by decide
 
-/-! ## 5. where totality ends: the ten trials of `cache_beyond`
+/-! ## 5. multi-output plugins: chunking independence and totality
 
-For a multi-output plugin the plugin-does-not-fail half needs one more hypothesis: the ten
-passes of `cache_beyond` must suffice to find a common split time of all outputs.  They do not
-when two outputs interlock like bricks over a long stretch (pairs (0,1),(2,3),… against
-(1,2),(3,4),… over ≥ 24 touching rows): model and real plugin both answer `ValueError` (component
-`iter/ten-trials` of checks/props/c09.py; open finding `C09-ten-trials`, same family as D9).
-No theorem is claimed there. -/
+All outputs per-row window-local.  Every output then carries the intervals of the input rows, so
+all outputs admit exactly the same split times as the input itself (`split_map`): the first trial
+of `cache_beyond` finds the common split time, the "start time inconsistency" check passes, and
+each output is what a single-output plugin would yield.  This is the hypothesis that excludes
+the ten-trial give-up: no output invents intervals of its own, so outputs cannot interlock. -/
 
-/-! ## 6. the form the pipeline layer consumes (property C01)
+/-- the chunks yielded under the output name `k`, in order, final flush included -/
+abbrev outputOf := @Overlap.outputOf
+
+theorem multi_overlap_whole (fs : List (String × String × (List Row → List Row))) (wl wr : Int) (cs : List Chunk)
+    (hs : Stream cs) (hne : fs ≠ []) (hnd : (fs.map (·.1)).Nodup)
+    (hf : ∀ p ∈ fs, WindowLocal p.2.2 wl wr) (hwl : 0 ≤ wl) (hwr : 0 ≤ wr) :
+    ∃ ds, runOverlapMulti fs (wl, wr) cs = .ok ds ∧ ds.length = cs.length + 1 ∧
+      ∀ p ∈ fs, (outputOf p.1 ds).length = ds.length ∧ allRows (outputOf p.1 ds) = p.2.2 (allRows cs) := by
+  obtain ⟨G, hG⟩ := kernels_by_name (wl := wl) (wr := wr) hnd (fun p hp => hf p hp)
+  exact runOverlapMulti_whole hne hnd hG hwl hwr hs
+
+/-- totality alone -/
+theorem multi_overlap_total (fs : List (String × String × (List Row → List Row))) (wl wr : Int) (cs : List Chunk)
+    (hs : Stream cs) (hne : fs ≠ []) (hnd : (fs.map (·.1)).Nodup)
+    (hf : ∀ p ∈ fs, WindowLocal p.2.2 wl wr) (hwl : 0 ≤ wl) (hwr : 0 ≤ wr) :
+    ∃ ds, runOverlapMulti fs (wl, wr) cs = .ok ds := by
+  obtain ⟨ds, h, -⟩ := multi_overlap_whole fs wl wr cs hs hne hnd hf hwl hwr
+  exact ⟨ds, h⟩
+
+example : ([("cnt", "k1", fCount 2 1), ("sum", "k2", fSum 2 1)] : List (String × String × (List Row → List Row))) ≠ [] ∧
+    (∀ p ∈ ([("cnt", "k1", fCount 2 1), ("sum", "k2", fSum 2 1)] : List (String × String × (List Row → List Row))),
+      WindowLocal p.2.2 2 1) := by
+  refine ⟨by simp, ?_⟩
+  intro p hp
+  simp only [List.mem_cons, List.not_mem_nil, or_false] at hp
+  rcases hp with rfl | rfl
+  · exact count_windowLocal 2 1
+  · exact sum_windowLocal 2 1
+
+/-! ## 6. where totality ends: the ten trials of `cache_beyond`
+
+Without the hypothesis of §5 the plugin-does-not-fail half is false.  Two group-forming outputs
+that interlock like bricks — pairs (0,1),(2,3),… against (1,2),(3,4),… — over 24 touching rows in
+ONE chunk: the run is a `Stream`, the window (0, 0) is legal, the output names differ, both
+computations are local (each group is two adjacent rows), yet the model answers `ValueError`
+("Buffer start time inconsistency cannot be resolved after 10 tries"); with 20 rows it succeeds.
+Checked by the kernel; the real plugin does the same (component `iter/ten-trials` of
+checks/props/c09.py; open finding `C09-ten-trials`, same family as D9). -/
+
+def brickRun (n : Nat) : List Chunk :=
+  [⟨"d0", "k0", some "0", 0, n, (List.range n).map (fun (i : Nat) => (⟨(i : Int), (i : Int) + 1, i⟩ : Row)), none,
+    [⟨"0", 0, n⟩], 1000⟩]
+
+def failsWith (r : Except Err (List (Dict Chunk))) (e : Err) : Bool :=
+  match r with
+  | .error e' => e' == e
+  | .ok _ => false
+
+theorem ten_trials_counterexample :
+    Stream (brickRun 24) ∧
+    failsWith (runOverlapMulti [("even", "ke", fPair 0 0), ("odd", "ko", fPair 1 0)] (0, 0) (brickRun 24)) .valueError = true ∧
+    (runOverlapMulti [("even", "ke", fPair 0 0), ("odd", "ko", fPair 1 0)] (0, 0) (brickRun 20)).isOk = true := by
+  refine ⟨by decide +kernel, by decide +kernel, by decide +kernel⟩
+
+/-! ## 7. absolute time does not matter
+
+All theorems above quantify over unbounded `Int` times: they hold verbatim at ns-since-epoch scale
+(1.7·10¹⁸) — what has to be tied there is the implementation's arithmetic (component `iter/epoch`).
+The model itself is not literally translation invariant (`split_array` starts its scan with
+`latest_end_seen = -1`, `Chunk.__init__` demands `start ≥ 0`, `sent_until` starts at 0 — all absolute),
+but on law-abiding runs moved to a LATER time its output rows move along: -/
+theorem overlap_rows_shift (f : List Row → List Row) (wl wr : Int) (cs outs outs' : List Chunk) (d : Int)
+    (hs : Stream cs) (hf : WindowLocal f wl wr) (hd : 0 ≤ d)
+    (hequi : ∀ rows, f (rows.map (shiftRow d)) = (f rows).map (shiftRow d))
+    (h : runOverlap f (wl, wr) cs = .ok outs) (h' : runOverlap f (wl, wr) (cs.map (shiftChunk d)) = .ok outs') :
+    allRows outs' = (allRows outs).map (shiftRow d) := by
+  rw [overlap_whole_partial f wl wr _ outs' (stream_shift hd hs) hf h',
+    overlap_whole_partial f wl wr cs outs hs hf h, allRows_shift, hequi]
+
+/-! ## 8. the form the pipeline layer consumes (property C01)
 
 `Strax.Pipeline.StreamSpec ov w` (Model/Pipeline.lean) is the layer theorem C01's `overlap_hom_partial`
 takes as a hypothesis: for every stream `s` over `R` obeying the laws of chunking *in the pipeline's
